@@ -132,6 +132,7 @@ def make_plan(rng, scheme, **over):
             tn = sn
         plan["stm_name"], plan["str_name"] = sn.hex(), tn.hex()
         plan["identity_style"] = rng.choice(["explicit", "absent", "none-cfm"])
+        plan["none_style"] = "default"        # a /CF entry whose method is None: /CFM absent (Table 25: default None) or /CFM /None written out
         plan["extra_cf"] = []
         for m in rng.sample(meths, rng.choice([0, 1, 2])):
             nm = b"Extra" + m.encode()
@@ -272,6 +273,8 @@ class EncFile:
             cfd = {}
             for name, m in sorted(self.cf.items()):
                 ent = {b"Type": N("CryptFilter"), b"CFM": Name(CFM_NAME[m]), b"AuthEvent": N("DocOpen")}
+                if m == "0" and p.get("none_style", "default") == "default":
+                    del ent[b"CFM"]
                 st = p.get("cf_length_style", "bytes")
                 if m != "0" and st != "absent":
                     ent[b"Length"] = self.kl if st == "bytes" else self.kl * 8
